@@ -291,11 +291,17 @@ func Run(tier string) {
 
 // byteLevel: bit flips and inserted bytes in the real header bytes.
 func byteLevel(run *vk.Run, w *world.World, pt []byte) {
-	lists := [][]string{{"x1"}, {"x1", "e1"}, {"e1", "x1", "x2"}, {"r1", "x1"}, {"s1"}}
+	// ("G": a custom recipient's stanza of an unknown type; its body is 7 bytes in front, 149 bytes and a long first line
+	// behind: body lengths of every residue modulo 3 occur, so last base64 groups of two and of three characters do)
+	lists := [][]string{{"x1"}, {"x1", "e1"}, {"e1", "x1", "x2"}, {"r1", "x1"}, {"s1"}, {"G", "x1"}, {"x1", "G"}}
 	rng := mrand.New(mrand.NewSource(run.Seed))
 	for _, l := range lists {
 		var rs []coregen.Recip
 		for _, k := range l {
+			if k == "G" {
+				rs = append(rs, coregen.Recip{K: "G"})
+				continue
+			}
 			rs = append(rs, coregen.Recip{K: "K", Key: k})
 		}
 		h, err := build(w, rs, pt)
@@ -311,7 +317,10 @@ func byteLevel(run *vk.Run, w *world.World, pt []byte) {
 		var muts []mut
 		for off := 0; off < hdrLen; off++ {
 			for bit := 0; bit < 8; bit++ {
-				if len(l) > 1 && !run.Thorough() && (off*8+bit+int(run.Seed))%3 != 0 {
+				// the first and last two characters of every line get all eight flips (the ends of base64 runs carry the
+				// spare bits), the rest a third of them in the quick tier
+				edge := off == 0 || h.file[off-1] == '\n' || h.file[off] == '\n' || (off+1 < hdrLen && h.file[off+1] == '\n') || (off+2 < hdrLen && h.file[off+2] == '\n')
+				if len(l) > 1 && !run.Thorough() && !edge && (off*8+bit+int(run.Seed))%3 != 0 {
 					continue
 				}
 				f := append([]byte{}, h.file...)
@@ -377,6 +386,9 @@ func byteLevel(run *vk.Run, w *world.World, pt []byte) {
 		vk.Parallel(len(muts), 16, func(i int) {
 			m := muts[i]
 			for _, id := range l {
+				if id == "G" {
+					continue
+				}
 				judge(run, w, m.file, []string{id}, false, sigBase+"/"+m.name, fmt.Sprintf("%s in the header of a file for [%s], decrypted with %s", m.name, strings.Join(l, ","), id), map[string]interface{}{"check": "C03.bytes", "file": vk.Ints(m.file[:min(len(m.file), hdrLen+40)]), "id": id}, pt, h.file)
 			}
 		})
